@@ -180,6 +180,9 @@ class pointwise_aggregates {
                 }
             }
 
+            // Every aggregate was too small: there is no coarse level.
+            if (!m) throw error::empty_level();
+
             // Update aggregate count and aggregate ids.
             aggr.count = m;
 
